@@ -62,9 +62,14 @@ func InModule(path string) bool {
 
 // Load type-checks the module at dir (working tree, not a snapshot) and
 // builds SSA for it and its dependencies.
-func Load(dir string) (*Prog, error) {
+func Load(dir string) (*Prog, error) { return LoadEnv(dir) }
+
+// LoadEnv is Load with extra environment settings for the go command (GOARCH=…, GOOS=…), so that the rules can be
+// run on the program another platform builds.
+func LoadEnv(dir string, extra ...string) (*Prog, error) {
 	os.Unsetenv("GOWORK")
 	env := append(os.Environ(), "GOFLAGS=-mod=mod", "GOPROXY=off", "GOSUMDB=off", "GOTOOLCHAIN=local", "GOWORK=off")
+	env = append(env, extra...)
 	cfg := &packages.Config{
 		Mode:  packages.LoadAllSyntax,
 		Dir:   dir,
